@@ -68,6 +68,7 @@ func TestSyncerHead(t *testing.T) {
 			clock, sub, started := 1, 0, false
 			kind := ""
 			lastX := 0
+			errFlavour := 0
 			hold := mbt.Bool(c, "holdSync") // variant: range requests of the sync loop hang, learned heads stay pending
 			release := make(chan struct{})
 			if hold {
@@ -101,6 +102,15 @@ func TestSyncerHead(t *testing.T) {
 					}
 				}
 				if x == 0 {
+					// the failure comes in three flavours (same prediction): a plain error, and the two an Exchange produces
+					// when the request ran into its own timeout or was cancelled — whoever shares the request shares that
+					// failure, a caller whose own context is still alive included
+					switch errFlavour % 3 {
+					case 1:
+						return nil, fmt.Errorf("scripted: head request timed out: %w", context.DeadlineExceeded)
+					case 2:
+						return nil, fmt.Errorf("scripted: head request cancelled: %w", context.Canceled)
+					}
 					return nil, errors.New("scripted: trusted peers unavailable")
 				}
 				lastX = x
@@ -110,6 +120,7 @@ func TestSyncerHead(t *testing.T) {
 				step, _ := st.(map[string]any)
 				op := mbt.Str(step, "op")
 				kind = mbt.Str(step, "kind")
+				errFlavour = id + i
 				k := mbt.Int(step, "k")
 				rec := HeadStep{Tr: id, I: i, Op: op, Kind: kind, K: k, Clock: clock, SubBefore: sub, RT: rt, TP: tp, Trusted: []int{}, Results: []int{}, Started: started}
 				n.get.resetLog()
